@@ -7,6 +7,7 @@ TRUSTED = [
     "(forceSetupOrdered, Extend/MarshalJSON from an unordered set) and feeds it to the model, which validates it is a permutation",
     "encoding/json for int values; sync.Mutex (C18_sync is the LockedObject instance: every method body is one critical section)",
     "the Go linearizability search and reference set in harness/cmd/c18 (direct oracle)",
+    "goroutine snapshots (runtime.Stack) decide 'parked in sync.Mutex.Lock' for the lock-identity probes (10 s deadline)",
     "Go race detector: the driver is built with -race; iterator-vs-writer stress on a synchronized set runs in a child process whose race reports become oracle failures",
 ]
 ASSUMPTIONS = [
@@ -19,7 +20,7 @@ EXPLANATION = ("Theorems in coq/Props/C18.v over arbitrary operation lists on a 
                "recorded concurrent histories of a synchronized set are checked linearizable and their witness order is re-run by the model.")
 READY = True
 LEVEL_TEXT = ("Machine-checked Coq theorems: SetInv (hash/list bijection) preserved by every operation; refinement of Check/Len/AddCheck/DeleteCheck/"
-              "iterator to a reference finite set with insertion order; Equal iff same members (and order); JSON round trip; synchronized set = LockedObject instance. "
+              "iterator to a reference finite set with insertion order; Equal iff same members (and order); JSON round trip; the mutex slot is write-once (first mutex installed stays); synchronized set = LockedObject instance over that single lock. "
               "Model tied to /repo by differential correspondence on every run.")
 LEVEL_NOTE = ("Trusted: Coq kernel + vm_compute; hand-written model of dt/set.go over a sequence-level element store (C16/C17 cover dt.List itself); "
               "correspondence is differential testing (2.5k cases quick); concurrent part: proof over modelled critical sections + recorded histories + lock probe.")
